@@ -201,8 +201,8 @@ func runC19(r *Run, stratum string) *Violation {
 		lastPos[k] = -1
 		maxPos[k] = -1
 	}
-	execInInc := map[int]int{}     // expected index -> incarnation that executed it last
-	redirected := map[int]string{} // expected index -> kind of redirect a node answered
+	execInInc := map[int]int{}      // expected index -> incarnation that executed it last
+	redirected := map[int]string{}  // expected index -> kind of redirect a node answered
 	migratedSlots := map[int]bool{} // slots that have been under migration at some point of the run
 	scan := func() {
 		for ; scanned < len(l.topo.Log); scanned++ {
